@@ -597,6 +597,7 @@ package genql
 //@   ensures star-group[C03]: len(args) == 0 && has(current, "*") && typeis(current["*"], []any) ==> err == nil && result == any(len(current["*"].([]any)))
 
 //@ func AggrFunExpr
+//@   at-call mapstore:query.singletonExecutions[key] assert memo-key[C03]: called(String) && key == callresult(String, 0)
 //@   at-call AggrFuncArgReader assert filtered-rows[C03]: len(query.groupDefinition) == 0 ==> typeis(current["*"], []any) ==> rows == current["*"].([]any)
 
 //@ func ExecSelect
